@@ -64,6 +64,7 @@ func (device *Device) PopulatePools() {
 	device.pool.outboundElements = NewWaitPool(PreallocatedBuffersPerPool, func() any {
 		return new(QueueOutboundElement)
 	})
+	device.verifPoolsInit()
 }
 
 func (device *Device) GetInboundElementsContainer() *QueueInboundElementsContainer {
